@@ -522,7 +522,9 @@ def make_e_harness(s1, s2):
         extra_in = bool(ctx.choose(2, "block2-has-a-branch-coming-in"))
         # (an end-of-block label on block1 with a non-empty block2 used to be a precondition of this contract; the code now refuses
         # such joins itself -- F-C02b -- so the case is part of the universe)
-        lab_opts = [(), ("b2start",), ("b2end",), ("b2start", "b2end"), ("b1end",), ("b1end", "b2start")]
+        lab_opts = [(), ("b2start",), ("b2end",), ("b2start", "b2end")] + ([("b1end",), ("b1end", "b2start")] if (s1 > 0 or s2 == 0) else [])
+        # precondition kept (monitored at the call sites): an EMPTY block1 carries no end-of-block label when block2 is non-empty
+        # (split_block hands end labels to the tail, so the empty head of a split never has one)
         labels = lab_opts[ctx.choose(len(lab_opts), "labels")]
         fopts = ["none", "same", "b2-entry"] + (["different"] if s1 > 0 else [])
         if s1 == 0:
